@@ -8,7 +8,31 @@ import sys
 from . import rt
 
 
+def reconvert(rec):
+    """convert rec['src'] with the tree under test for the first recorded configuration"""
+    import random
+
+    from . import common
+
+    ol = common.import_repo()
+    from oneliner.config import Configs
+
+    u, w, i = rec["configs"][0].split("/")
+    c = Configs()
+    c.unparser = u
+    c.expr_wrapper = w
+    c.if_style = i
+    random.seed(0)
+    return ol.convert_code_string(rec["src"], configs=c)
+
+
 def replay_sce(rec):
+    if not rec.get("use_recorded_out"):
+        try:
+            rec = dict(rec, out=reconvert(rec))
+            compile(rec["out"], "<converted>", "eval")
+        except Exception as e:
+            return {"reproduced": True, "divergence": "rejected-or-compile-error:%s" % type(e).__name__}
     ob = rt.Obligation({"oid": "replay", "src": rec["src"], "out": rec["out"], "observe": rec.get("observe", "trace+globals"), "budget": rec.get("budget", 60)})
     inputs = rec["inputs"] or {}
     outs = []
@@ -57,8 +81,8 @@ def main(argv):
         rec = json.load(f)
     kind = rec.get("kind", "sce")
     if kind == "sce":
-        if "out" not in rec:
-            # violation record written by the driver for a rejection / compile error: re-run converter
+        if rec.get("inputs") is None and not rec.get("use_recorded_out"):
+            # conversion-level divergence (rejection / text that is not an expression)
             from . import replay_conv
 
             r = replay_conv.replay(rec)
